@@ -307,6 +307,13 @@ def external_scenarios(ctx):
             sc = scenario(seq, TPS, "close", plan={cb: "o" * k + "c"})
             sc.update(ext=True, kind="external-app-close", horizon=60 * TPS)
             scs.append(sc)
+    # keepalive WITH a timeout under the external dispatcher: connections that fall silent are given up by the ping/pong
+    # timeout — the first one, and every later one of the same run (the periodic check lives as long as the run)
+    for seq in (("Es",), ("Es", "Es"), ("Es", "Ee"), ("Ee", "Es", "Ee"), ("Es", "Es", "Es"), ("Er", "Es"), ("Es", "R", "Es")):
+        for rc in (TPS, 5 * TPS):
+            sc = scenario(seq, rc, "close", ka=True)
+            sc.update(ext=True, kind="external-keepalive", horizon=140 * TPS)
+            scs.append(sc)
     return scs
 
 
